@@ -163,3 +163,21 @@ Theorem C15_unique_id : forall c init, WellFormed c -> recheck c = true -> NoDup
   (forall t k k0, pcs s t = PDoneOk k -> (k0 < nslots c)%nat -> init k0 <> [] -> key (init k0) <> key (uid c t)).
 Proof. intros c init H1 H2 H3 sch. exact (unique_id_all c init H1 H2 H3 sch). Qed.
 Print Assumptions C15_unique_id.
+
+(* The existence check and the size of the table. [exists_id n tab id] is cache.DoSearchUserRaw(id) != 0 on a table of
+   n = MAX_USERS slots: it answers "found" exactly when SOME slot below n holds the id in whatever letter case. Nothing else
+   bounds the lookup - in particular not the number of buckets of the id index (65 536, while the production configuration
+   has 2 000 000 slots): every theorem above is stated for any [nslots c]. *)
+Theorem C15_lookup_sees_every_slot : forall n tab id,
+  exists_id n tab id = true <-> exists k, (k < n)%nat /\ key (tab k) = key id.
+Proof. exact exists_id_spec. Qed.
+Print Assumptions C15_lookup_sees_every_slot.
+
+(* ... so, in any state and for a table of any size, a call whose id is held by ANY slot of the index (case-insensitively)
+   is refused: by the check outside the semaphore, and by the lookup inside it (the one the loser of a race depends on).
+   The check runs the real calls on the production-size tables with accounts in slots above the number of buckets. *)
+Theorem C15_existing_id_refused : forall c s t k, (k < nslots c)%nat -> key (idx s k) = key (uid c t) ->
+  (pcs s t = PCheck -> step c s (Step t) = Some (set_pc s t (PDoneErr E_EXISTS))) /\
+  (pcs s t = PRecheck -> step c s (Step t) = Some (set_pc s t (PUnlockErr E_EXISTS))).
+Proof. exact existing_id_refused. Qed.
+Print Assumptions C15_existing_id_refused.
